@@ -1,8 +1,229 @@
-(* Properties_C14.v — placeholder while the proofs are being written *)
-From Coq Require Import List NArith Bool.
-From LB Require Import ConfigSpec.
+(* Properties_C14.v - C14: configs accepted iff well-formed and unambiguous; getters reflect them exactly.
+   Statements only.  `accept d` is the verdict of bidib_start_pointer's configuration phase on the
+   layout-following document d (coq/ConfigSpec.v); `steps d` is d in document order as one list of atomic
+   entries (board / setup header / board accessory / dcc accessory / peripheral / segment / reverser / train),
+   `x` before `y` in that list = x is declared earlier in the three files (board file, track file, train file).
+   Every "rejects" theorem is one fault class of the property statement. *)
+From Coq Require Import List NArith Bool String.
+From LB Require Import ConfigSpec ConfigSpecProofs ConfigExamples.
 Import ListNotations.
 Local Open Scope N_scope.
-Example C14_nonvacuous : to_byte [48; 120; 49; 70] = Some 31.
-Proof. vm_compute. reflexivity. Qed.
+
+(* acceptance is the fold of the per-entry step over the document order *)
+Theorem C14_document_order : forall d, parse3 d = fold_res run_step (steps d) st0.
+Proof. exact parse3_steps. Qed.
+Print Assumptions C14_document_order.
+
+(* ---- ambiguous identifiers ---- *)
+Theorem C14_rejects_dup_board_id : forall d b1 b2 l1 l2 l3,
+  steps d = l1 ++ SBoard b1 :: l2 ++ SBoard b2 :: l3 -> b_id b1 = b_id b2 -> accept d = false.
+Proof. exact rejects_dup_board_id. Qed.
+Print Assumptions C14_rejects_dup_board_id.
+
+Theorem C14_rejects_dup_unique_id : forall d b1 b2 u l1 l2 l3,
+  steps d = l1 ++ SBoard b1 :: l2 ++ SBoard b2 :: l3 -> to_uid (b_uid b1) = Some u -> to_uid (b_uid b2) = Some u -> accept d = false.
+Proof. exact rejects_dup_unique_id. Qed.
+Print Assumptions C14_rejects_dup_unique_id.
+
+(* points: board points and dcc points of all boards share one id space; likewise signals *)
+Theorem C14_rejects_dup_point_id : forall d x y k l1 l2 l3,
+  steps d = l1 ++ x :: l2 ++ y :: l3 -> point_id_of x = Some k -> point_id_of y = Some k -> accept d = false.
+Proof. exact rejects_dup_point_id. Qed.
+Print Assumptions C14_rejects_dup_point_id.
+
+Theorem C14_rejects_dup_signal_id : forall d x y k l1 l2 l3,
+  steps d = l1 ++ x :: l2 ++ y :: l3 -> signal_id_of x = Some k -> signal_id_of y = Some k -> accept d = false.
+Proof. exact rejects_dup_signal_id. Qed.
+Print Assumptions C14_rejects_dup_signal_id.
+
+Theorem C14_rejects_dup_peripheral_id : forall d b1 e1 b2 e2 l1 l2 l3,
+  steps d = l1 ++ SPeriph b1 e1 :: l2 ++ SPeriph b2 e2 :: l3 -> p_id e1 = p_id e2 -> accept d = false.
+Proof. exact rejects_dup_peripheral_id. Qed.
+Print Assumptions C14_rejects_dup_peripheral_id.
+
+Theorem C14_rejects_dup_segment_id : forall d b1 e1 b2 e2 l1 l2 l3,
+  steps d = l1 ++ SSeg b1 e1 :: l2 ++ SSeg b2 e2 :: l3 -> sg_id e1 = sg_id e2 -> accept d = false.
+Proof. exact rejects_dup_segment_id. Qed.
+Print Assumptions C14_rejects_dup_segment_id.
+
+Theorem C14_rejects_dup_reverser_id : forall d b1 e1 b2 e2 l1 l2 l3,
+  steps d = l1 ++ SRev b1 e1 :: l2 ++ SRev b2 e2 :: l3 -> rv_id e1 = rv_id e2 -> accept d = false.
+Proof. exact rejects_dup_reverser_id. Qed.
+Print Assumptions C14_rejects_dup_reverser_id.
+
+Theorem C14_rejects_dup_train_id : forall d t1 t2 l1 l2 l3,
+  steps d = l1 ++ STrain t1 :: l2 ++ STrain t2 :: l3 -> t_id t1 = t_id t2 -> accept d = false.
+Proof. exact rejects_dup_train_id. Qed.
+Print Assumptions C14_rejects_dup_train_id.
+
+(* ---- duplicates on one board (the board may be spread over several entries of the track file) ---- *)
+(* board points and board signals of one board share one accessory-number space (pt1, pt2 arbitrary) *)
+Theorem C14_rejects_dup_number : forall d pt1 pt2 bid e1 e2 n l1 l2 l3,
+  steps d = l1 ++ SBacc pt1 bid e1 :: l2 ++ SBacc pt2 bid e2 :: l3 ->
+  to_byte (ba_num e1) = Some n -> to_byte (ba_num e2) = Some n -> accept d = false.
+Proof. exact rejects_dup_accessory_number. Qed.
+Print Assumptions C14_rejects_dup_number.
+
+Theorem C14_rejects_dup_peripheral_number : forall d bid e1 e2 n l1 l2 l3,
+  steps d = l1 ++ SPeriph bid e1 :: l2 ++ SPeriph bid e2 :: l3 ->
+  to_byte (p_num e1) = Some n -> to_byte (p_num e2) = Some n -> accept d = false.
+Proof. exact rejects_dup_peripheral_number. Qed.
+Print Assumptions C14_rejects_dup_peripheral_number.
+
+Theorem C14_rejects_dup_port : forall d bid e1 e2 p l1 l2 l3,
+  steps d = l1 ++ SPeriph bid e1 :: l2 ++ SPeriph bid e2 :: l3 ->
+  to_pair (p_port e1) = Some p -> to_pair (p_port e2) = Some p -> accept d = false.
+Proof. exact rejects_dup_peripheral_port. Qed.
+Print Assumptions C14_rejects_dup_port.
+
+Theorem C14_rejects_dup_segment_address : forall d bid e1 e2 a l1 l2 l3,
+  steps d = l1 ++ SSeg bid e1 :: l2 ++ SSeg bid e2 :: l3 ->
+  to_byte (sg_addr e1) = Some a -> to_byte (sg_addr e2) = Some a -> accept d = false.
+Proof. exact rejects_dup_segment_address. Qed.
+Print Assumptions C14_rejects_dup_segment_address.
+
+Theorem C14_rejects_dup_cv : forall d bid e1 e2 l1 l2 l3,
+  steps d = l1 ++ SRev bid e1 :: l2 ++ SRev bid e2 :: l3 -> rv_cv e1 = rv_cv e2 -> accept d = false.
+Proof. exact rejects_dup_cv. Qed.
+Print Assumptions C14_rejects_dup_cv.
+
+(* ---- a DCC address shared between any two of: dcc points, dcc signals (any boards), trains ---- *)
+Theorem C14_rejects_shared_dcc_address : forall d x y a l1 l2 l3,
+  steps d = l1 ++ x :: l2 ++ y :: l3 -> dcc_addr_of x = Some a -> dcc_addr_of y = Some a -> accept d = false.
+Proof. exact rejects_shared_dcc_address. Qed.
+Print Assumptions C14_rejects_shared_dcc_address.
+
+(* ---- faults of a single entry: malformed values (byte / unique id / dcc address / port / 0-1 flags / dcc
+   ports > 31), duplicate aspect ids or values, duplicate dcc aspect ids, duplicate ports in a dcc aspect, no
+   aspects / no ports, an initial value naming no declared aspect, calibration not nine values <= 126,
+   speed steps other than 14/28/126, function bits > 31 or duplicated, duplicate function ids, duplicate
+   feature numbers.  step_fault spells these out (ConfigSpecProofs.v). ---- *)
+Theorem C14_rejects_entry_fault : forall d x, In x (steps d) -> step_fault x -> accept d = false.
+Proof. exact rejects_step_fault. Qed.
+Print Assumptions C14_rejects_entry_fault.
+
+(* the named classes as instances *)
+Theorem C14_rejects_no_aspects : forall d pt bid e, In (SBacc pt bid e) (steps d) -> ba_aspects e = [] -> accept d = false.
+Proof. exact (fun d pt bid e Hin H => rejects_step_fault d (SBacc pt bid e) Hin (or_intror (or_intror (or_introl H)))). Qed.
+Print Assumptions C14_rejects_no_aspects.
+
+Theorem C14_rejects_bad_initial : forall d pt bid e v, In (SBacc pt bid e) (steps d) ->
+  ba_init e = Some v -> ~ In v (map a_id (ba_aspects e)) -> accept d = false.
+Proof. exact (fun d pt bid e v Hin H1 H2 => rejects_step_fault d (SBacc pt bid e) Hin (or_intror (or_intror (or_intror (ex_intro _ v (conj H1 H2)))))). Qed.
+Print Assumptions C14_rejects_bad_initial.
+
+Theorem C14_rejects_dup_aspect_value : forall d pt bid e a1 a2 v, In (SBacc pt bid e) (steps d) ->
+  before a1 a2 (ba_aspects e) -> to_byte (a_val a1) = Some v -> to_byte (a_val a2) = Some v -> accept d = false.
+Proof. exact (fun d pt bid e a1 a2 v Hin Hb H1 H2 => rejects_step_fault d (SBacc pt bid e) Hin
+  (or_intror (or_introl (or_intror (or_intror (ex_intro _ a1 (ex_intro _ a2 (ex_intro _ v (conj Hb (conj H1 H2)))))))))). Qed.
+Print Assumptions C14_rejects_dup_aspect_value.
+
+Theorem C14_rejects_dup_aspect_id : forall d pt bid e a1 a2, In (SBacc pt bid e) (steps d) ->
+  before a1 a2 (ba_aspects e) -> a_id a1 = a_id a2 -> accept d = false.
+Proof. exact (fun d pt bid e a1 a2 Hin Hb H => rejects_step_fault d (SBacc pt bid e) Hin
+  (or_intror (or_introl (or_intror (or_introl (ex_intro _ a1 (ex_intro _ a2 (conj Hb H)))))))). Qed.
+Print Assumptions C14_rejects_dup_aspect_id.
+
+Theorem C14_rejects_bad_calibration : forall d t l, In t (d_trains d) -> t_cal t = Some l -> cal_fault l -> accept d = false.
+Proof. exact (fun d t l Hin H1 H2 => rejects_step_fault d (STrain t) (in_steps_train d t Hin)
+  (or_intror (or_intror (or_intror (or_introl (ex_intro _ l (conj H1 H2))))))). Qed.
+Print Assumptions C14_rejects_bad_calibration.
+
+Theorem C14_rejects_bad_speed_steps : forall d t v, In t (d_trains d) -> to_byte (t_steps t) = Some v ->
+  v <> 14 -> v <> 28 -> v <> 126 -> accept d = false.
+Proof.
+  exact (fun d t v Hin H1 n14 n28 n126 => rejects_step_fault d (STrain t) (in_steps_train d t Hin)
+    (or_intror (or_intror (or_introl (ex_intro _ v (conj H1
+      (proj2 (orb_false_iff _ _) (conj (proj2 (orb_false_iff _ _) (conj (proj2 (N.eqb_neq _ _) n14) (proj2 (N.eqb_neq _ _) n28))) (proj2 (N.eqb_neq _ _) n126))))))))).
+Qed.
+Print Assumptions C14_rejects_bad_speed_steps.
+
+Theorem C14_rejects_bit_gt_31 : forall d t l p v, In t (d_trains d) -> t_per t = Some l -> In p l ->
+  to_byte (tp_bit p) = Some v -> 31 < v -> accept d = false.
+Proof. exact (fun d t l p v Hin H1 Hp H2 H3 => rejects_step_fault d (STrain t) (in_steps_train d t Hin)
+  (or_intror (or_intror (or_intror (or_intror (ex_intro _ l (conj H1 (or_introl (ex_intro _ p (conj Hp (or_intror (or_introl (ex_intro _ v (conj H2 H3)))))))))))))). Qed.
+Print Assumptions C14_rejects_bit_gt_31.
+
+Theorem C14_rejects_dup_bit : forall d t l p1 p2 v, In t (d_trains d) -> t_per t = Some l -> before p1 p2 l ->
+  to_byte (tp_bit p1) = Some v -> to_byte (tp_bit p2) = Some v -> accept d = false.
+Proof. exact (fun d t l p1 p2 v Hin H1 Hb H2 H3 => rejects_step_fault d (STrain t) (in_steps_train d t Hin)
+  (or_intror (or_intror (or_intror (or_intror (ex_intro _ l (conj H1 (or_intror (or_introl (ex_intro _ p1 (ex_intro _ p2 (ex_intro _ v (conj Hb (conj H2 H3)))))))))))))). Qed.
+Print Assumptions C14_rejects_dup_bit.
+
+Theorem C14_rejects_malformed_unique_id : forall d b, In b (d_boards d) -> to_uid (b_uid b) = None -> accept d = false.
+Proof. exact (fun d b Hin H => rejects_step_fault d (SBoard b) (in_steps_board d b Hin) (or_introl H)). Qed.
+Print Assumptions C14_rejects_malformed_unique_id.
+
+(* ---- a board in the track file that the board file does not declare ---- *)
+Theorem C14_rejects_unknown_board : forall d u, In u (d_track d) -> ~ In (su_id u) (map b_id (d_boards d)) -> accept d = false.
+Proof. exact rejects_unknown_board. Qed.
+Print Assumptions C14_rejects_unknown_board.
+
+(* ---- enumeration: after acceptance every list the getters enumerate is exactly what was declared, in
+   document order; boosters / track outputs are the boards whose unique-id class byte has bit 1 / bit 4 ---- *)
+Theorem C14_enumeration : forall d s, parse3 d = Ok s ->
+  g_boards s = map b_id (d_boards d) /\
+  ptb s = flat_map c_ptb (steps d) /\ ptd s = flat_map c_ptd (steps d) /\
+  sgb s = flat_map c_sgb (steps d) /\ sgd s = flat_map c_sgd (steps d) /\
+  pes s = flat_map c_pes (steps d) /\ segs s = flat_map c_segs (steps d) /\ revs s = flat_map c_revs (steps d) /\
+  g_trains s = flat_map c_train (steps d) /\
+  boosters s = flat_map c_boost (steps d) /\ touts s = flat_map c_tout (steps d) /\
+  tstates s = flat_map c_tstate (steps d).
+Proof.
+  exact (fun d s H => match accepted_lists d s H with
+                      | conj A B => conj (eq_trans A (flat_map_c_board d)) B end).
+Qed.
+Print Assumptions C14_enumeration.
+
+(* per board: what bidib_get_board_points / _signals / _peripherals / _segments / _reversers return for board `bid`
+   is exactly what the track file declares for that board (all its entries, in file order; board kinds first,
+   then dcc kinds, as the getters concatenate them) *)
+Theorem C14_enumeration_per_board : forall d s, parse3 d = Ok s -> forall bid b, get_board bid s = Some b ->
+  g_board_points b = flat_map (cb Kpb bid) (steps d) ++ flat_map (cb Kpd bid) (steps d) /\
+  g_board_signals b = flat_map (cb Ksb bid) (steps d) ++ flat_map (cb Ksd bid) (steps d) /\
+  g_board_periphs b = flat_map (cb Kpe bid) (steps d) /\
+  g_board_segs b = flat_map (cb Ksg bid) (steps d) /\
+  g_board_revs b = flat_map (cb Krv bid) (steps d).
+Proof. exact accepted_board_getters. Qed.
+Print Assumptions C14_enumeration_per_board.
+
+(* ---- formerly refuted, repaired in /repo (fix: reject a board point and a board signal of one board that share an
+   accessory number): the witness document is now rejected, as an instance of C14_rejects_dup_number ---- *)
+Definition point_signal_share_number (d : doc3) : bool :=
+  existsb (fun u => existsb (fun p => existsb (fun g =>
+    match to_byte (ba_num p), to_byte (ba_num g) with Some a, Some b => a =? b | _, _ => false end) (su_sb u)) (su_pb u)) (d_track d).
+Example C14_point_signal_same_number_rejected :
+  point_signal_share_number ex_point_signal_same_number = true /\ accept ex_point_signal_same_number = false.
+Proof. vm_compute. split; reflexivity. Qed.
+Print Assumptions C14_point_signal_same_number_rejected.
+
+(* ---- formerly refuted, repaired in /repo (fix: accept a train entry that ends after its calibration values):
+   calibration and peripherals are independent optional sections ---- *)
+Example C14_accepts_calibration_only : accept ex_doc = true /\ accept ex_calibration_only = true.
+Proof. vm_compute. split; reflexivity. Qed.
+Print Assumptions C14_accepts_calibration_only.
+
+(* conversions: every byte value in its documented spellings, and nothing above 255 *)
+Definition dec_digits (n : N) : str :=
+  (if 100 <=? n then [48 + n / 100] else []) ++ (if 10 <=? n then [48 + (n / 10) mod 10] else []) ++ [48 + n mod 10].
+Definition hexd (v : N) : N := if v <? 10 then 48 + v else 87 + v.
+Definition hexD (v : N) : N := if v <? 10 then 48 + v else 55 + v.
+Theorem C14_byte_spellings :
+  forallb (fun n => match to_byte (dec_digits n), to_byte [48; 120; hexd (n / 16); hexd (n mod 16)], to_byte [48; 120; hexD (n / 16); hexD (n mod 16)] with
+                    | Some a, Some b, Some c => (a =? n) && (b =? n) && (c =? n) | _, _, _ => false end)
+          (map N.of_nat (seq 0 256)) = true
+  /\ forallb (fun n => match to_byte (dec_digits n) with None => true | Some _ => false end) (map N.of_nat (seq 256 744)) = true.
+Proof. vm_compute. split; reflexivity. Qed.
+Print Assumptions C14_byte_spellings.
+
+(* non-vacuity: the configuration of the unit tests is accepted and enumerated as declared *)
+Example C14_nonvacuous :
+  accept ex_doc = true /\
+  match parse3 ex_doc with
+  | Ok st => g_boards st = [s "board1"%string; s "board2"%string; s "board3"%string] /\ boosters st = [s "board1"%string] /\
+             touts st = [s "board3"%string] /\ ptb st = [s "point1"%string; s "point2"%string] /\ ptd st = [s "point3"%string] /\
+             g_trains st = [s "train1"%string; s "train2"%string]
+  | _ => False
+  end.
+Proof. vm_compute. repeat split. Qed.
 Print Assumptions C14_nonvacuous.
